@@ -27,18 +27,22 @@ Print Assumptions C18_civil_roundtrip_date.
 (* path generation                                                                       *)
 (* ------------------------------------------------------------------------------------ *)
 
-(* coverage, all years: whenever paths are generated for [s, e), the hour directory and the day
-   directory of EVERY timestamp t with s <= t < e (t not before 1970) are among them *)
-Theorem C18_paths_cover : forall s e hs t,
-  gen s e = Some hs -> s <= t -> 0 <= t -> t < e ->
+(* coverage, all years: whenever paths are generated for the extracted range - [s, e) for an
+   exclusive upper bound, [s, e] for an inclusive one (TimeRange.EndInclusive, d443f9f) - the hour
+   directory and the day directory of EVERY timestamp t in the range (t not before 1970) are among
+   them *)
+Theorem C18_paths_cover : forall s e (incl : bool) hs t,
+  gen s e incl = Some hs -> s <= t -> 0 <= t -> (if incl then t <= e else t < e) ->
   In (hour_of t) hs /\ In (day_of t) (days_of hs) /\
   In (hour_path (hour_of t)) (map hour_path hs) /\ In (day_path (day_of t)) (map day_path (days_of hs)).
 Proof. exact paths_cover. Qed.
 Print Assumptions C18_paths_cover.
 
-(* and nothing outside [max(1970, hour of s), e) is generated *)
-Theorem C18_generated_within : forall s e hs h,
-  gen s e = Some hs -> In h hs -> Z.max 0 (s / HOUR) <= h /\ h * HOUR < e.
+(* and nothing outside [max(1970, hour of s), e) - plus the hour that starts at e for an inclusive
+   bound - is generated *)
+Theorem C18_generated_within : forall s e incl hs h,
+  gen s e incl = Some hs -> In h hs ->
+  Z.max 0 (s / HOUR) <= h /\ (h * HOUR < e \/ (incl = true /\ h * HOUR = e)).
 Proof. exact gen_lower. Qed.
 Print Assumptions C18_generated_within.
 
@@ -53,19 +57,21 @@ Print Assumptions C18_path_injective.
 (* soundness for conjunctions bounded on the real time column                            *)
 (* ------------------------------------------------------------------------------------ *)
 
-(* a WHERE that is a conjunction of atoms, all time predicates on the column `time`: the
-   bounds the regular expressions extract hold for EVERY satisfying row *)
+(* a WHERE that is a conjunction of atoms - predicates on event_time, sample_timestamp and any
+   other column included (the patterns are anchored at a word boundary since 2f7fd11) - without a
+   comparison on a column named `timestamp`: the bounds the regular expressions extract hold for
+   EVERY satisfying row *)
 Theorem C18_bounds_sound_conj : forall w now r s e incl,
-  conj_only w = true -> forallb atom_on_time (flatten w) = true -> eval_w r now w = true ->
+  conj_only w = true -> forallb atom_ok (flatten w) = true -> eval_w r now w = true ->
   start_of (flatten w) now = Some s -> end_of (flatten w) now = Some (e, incl) ->
   s <= r_time r /\ (if incl then r_time r <= e else r_time r < e).
 Proof. exact bounds_sound_conj. Qed.
 Print Assumptions C18_bounds_sound_conj.
 
-(* pruning sound: no OR, no NOT, time predicates only on `time`, a lower and an upper bound
-   found, the upper bound exclusive or not on an hour boundary (classify = 0); every row stored
-   in the partition of its timestamp; no row before 1970.  Then for EVERY layout the pruned
-   query returns exactly the rows of the unpruned one. *)
+(* pruning sound: no OR, no NOT, no comparison on a column named `timestamp`, a lower and an
+   upper bound found - exclusive or inclusive, on an hour boundary or not (classify = 0); every
+   row stored in the partition of its timestamp; no row before 1970.  Then for EVERY layout the
+   pruned query returns exactly the rows of the unpruned one. *)
 Theorem C18_pruning_sound_guarded : forall w now fs,
   classify w now = 0%N -> layout_ok fs -> rows_nonneg fs ->
   query_pruned w now fs = query_unpruned w now fs.
@@ -79,7 +85,7 @@ Print Assumptions C18_pruning_sound_guarded.
 Definition base : Z := 1710511200 * US.                       (* 2024-03-15 14:00:00 *)
 Definition L (v : Z) : tlit := {| l_us := v; l_ok := true |}.
 Definition mkrow (t et : Z) (f0 : bool) : row :=
-  {| r_time := t; r_etime := et; r_stime := t; r_flags := [f0; false; false; false] |}.
+  {| r_time := t; r_etime := et; r_stime := t; r_ts := et; r_flags := [f0; false; false; false] |}.
 Definition hfile (id : N) (t et : Z) (f0 : bool) : file := FHour (t / HOUR) [(id, mkrow t et f0)].
 Definition now0 : Z := base + 100 * DAY.
 
@@ -106,14 +112,15 @@ Theorem C18_not_refuted :
 Proof. cbv zeta. split; [reflexivity|]. split; [layout_tac|]. split; [layout_tac|]. split; vm_compute; reflexivity. Qed.
 Print Assumptions C18_not_refuted.
 
-(* event_time >= base AND time < base + 2 d : the bound of another column is taken for `time` *)
-Theorem C18_other_time_column_refuted :
-  let w := WAnd (WAtom (ACmp CTimeLike OGe (L base))) (WAtom (ACmp CTime OLt (L (base + 2 * DAY)))) in
+(* timestamp >= base AND time < base + 2 d : a column named `timestamp` is still taken for the
+   partitioning column (`\btimestamp` patterns) *)
+Theorem C18_timestamp_column_refuted :
+  let w := WAnd (WAtom (ACmp CTsExact OGe (L base))) (WAtom (ACmp CTime OLt (L (base + 2 * DAY)))) in
   let fs := [hfile 3 (base - 5 * HOUR) (base + HOUR) false; hfile 2 base base false] in
   classify w now0 = 3%N /\ layout_ok fs /\ rows_nonneg fs /\
   query_unpruned w now0 fs = [3%N; 2%N] /\ query_pruned w now0 fs = [2%N].
 Proof. cbv zeta. split; [reflexivity|]. split; [layout_tac|]. split; [layout_tac|]. split; vm_compute; reflexivity. Qed.
-Print Assumptions C18_other_time_column_refuted.
+Print Assumptions C18_timestamp_column_refuted.
 
 (* only an upper bound: the start defaults to 2020-01-01, a row of 2019-12-31 is lost *)
 Theorem C18_default_start_refuted :
@@ -132,16 +139,6 @@ Theorem C18_default_end_refuted :
   query_unpruned w now0 fs = [2%N; 5%N] /\ query_pruned w now0 fs = [2%N].
 Proof. cbv zeta. split; [reflexivity|]. split; [layout_tac|]. split; [layout_tac|]. split; vm_compute; reflexivity. Qed.
 Print Assumptions C18_default_end_refuted.
-
-(* time >= base AND time <= base + 2 h : the row at exactly base + 2 h lives in an hour directory
-   the loop `for current.Before(end)` never reaches *)
-Theorem C18_inclusive_end_refuted :
-  let w := WAnd (WAtom (ACmp CTime OGe (L base))) (WAtom (ACmp CTime OLe (L (base + 2 * HOUR)))) in
-  let fs := [hfile 6 (base + HOUR) 0 false; hfile 7 (base + 2 * HOUR) 0 false] in
-  classify w now0 = 6%N /\ layout_ok fs /\ rows_nonneg fs /\
-  query_unpruned w now0 fs = [6%N; 7%N] /\ query_pruned w now0 fs = [6%N].
-Proof. cbv zeta. split; [reflexivity|]. split; [layout_tac|]. split; [layout_tac|]. split; vm_compute; reflexivity. Qed.
-Print Assumptions C18_inclusive_end_refuted.
 
 (* rows before 1970: the start is clamped up to the epoch (the clause itself is inside the class) *)
 Theorem C18_pre_epoch_refuted :
@@ -166,6 +163,20 @@ Example C18_pruning_sound_nonvacuous :
   pruned_hours w now0 = Some [475141; 475142; 475143; 475144] /\
   query_pruned w now0 fs = [2%N; 4%N] /\ query_unpruned w now0 fs = [2%N; 4%N].
 Proof. cbv zeta. split; [reflexivity|]. split; [layout_tac|]. split; [layout_tac|]. repeat split; vm_compute; reflexivity. Qed.
+
+(* regression witnesses of the two fixed findings (d443f9f, 2f7fd11): both clauses are now inside
+   the class of the soundness theorem and keep their rows *)
+Example C18_fixed_findings_regression :
+  let w1 := WAnd (WAtom (ACmp CTime OGe (L base))) (WAtom (ACmp CTime OLe (L (base + 2 * HOUR)))) in
+  let fs1 := [hfile 6 (base + HOUR) 0 false; hfile 7 (base + 2 * HOUR) 0 false] in
+  let w2 := WAnd (WAtom (ACmp CTimeLike OGe (L base)))
+                 (WAnd (WAtom (ACmp CTime OGe (L (base - DAY)))) (WAtom (ACmp CTime OLt (L (base + 2 * DAY))))) in
+  let fs2 := [hfile 3 (base - 5 * HOUR) (base + HOUR) false; hfile 2 base base false] in
+  classify w1 now0 = 0%N /\ pruned_hours w1 now0 = Some [475142; 475143; 475144] /\
+  query_pruned w1 now0 fs1 = [6%N; 7%N] /\ query_unpruned w1 now0 fs1 = [6%N; 7%N] /\
+  classify w2 now0 = 0%N /\ extract (flatten w2) now0 = Some (base - DAY, base + 2 * DAY, false) /\
+  query_pruned w2 now0 fs2 = [3%N; 2%N] /\ query_unpruned w2 now0 fs2 = [3%N; 2%N].
+Proof. vm_compute. repeat split; reflexivity. Qed.
 
 Example C18_paths_text : hour_path (base / HOUR) = B "2024/03/15/14" /\ day_path (-1) = B "1969/12/31".
 Proof. vm_compute. split; reflexivity. Qed.
